@@ -2,18 +2,46 @@
 (***************************************************************************)
 (* Model-checking instances of OneD.tla for property C01: the constants of *)
 (* the two tiers (DESIGN.md section 5, C01 "Tiers").                       *)
+(*                                                                         *)
+(* Every tier is a fixed lattice PLUS values drawn from the pools below by *)
+(* VERIF_SEED: the harness writes only a start index and a count per pool  *)
+(* (module OneDSeed, generated per run: SeedAlpha == <<start, count>>,     *)
+(* ...), the values are the ones written here (taken with stride 5,        *)
+(* coprime to every pool length: distinct as long as count <= length).     *)
+(* The pools are disjoint from the fixed lattices.                         *)
+(* The fixed lattices contain the defaults declared by the constructors    *)
+(* (alpha 0, delta/h 1/10 and 1, d 9, rho 11/10) so that the call form     *)
+(* "omitted" (OneD.tla section 7b) is exercised in both tiers, and n = 1   *)
+(* (smallest admissible size of the Gauss-Chebyshev-2 rules and of the     *)
+(* exp-sinh family).                                                       *)
 (***************************************************************************)
-EXTENDS OneD
+EXTENDS OneD, OneDSeed
 
-QuickN == [i_ \in 1..11 |-> i_ + 1]                                   \* 2..12
-ThoroughN == [i_ \in 1..99 |-> i_ + 1] \o <<127, 128, 255, 256>>             \* 2..100, 127, 128, 255, 256
-QuickAlpha == <<<<-1, 2>>, <<5, 2>>>>
-ThoroughAlpha == <<<<-1, 2>>, <<0, 1>>, <<1, 3>>, <<1, 2>>, <<1, 1>>, <<5, 2>>>>
-QuickStep == <<<<1, 10>>, <<1, 2>>>>
-ThoroughStep == <<<<1, 20>>, <<1, 10>>, <<1, 2>>, <<1, 1>>>>
+Pick(pool_, sc_) == [q_ \in 1..sc_[2] |-> pool_[((sc_[1] + 5 * (q_ - 1)) % Len(pool_)) + 1]]
+
+\* (alphas with small denominators only: the exact orthogonality proof FamiliesOrthogonal of every
+\* alpha in use must fit TLC's 32-bit integers; alpha <= 8: beyond, the float evaluation of the
+\* orthonormal Laguerre family by the harness loses the 3 orders of slack below the tolerance
+\* - 3.5e-12 at alpha = 10, 3.7e-11 at 12, 2.9e-9 at 15, n <= 64)
+AlphaPool == <<<<-4, 5>>, <<-3, 4>>, <<-2, 3>>, <<-1, 3>>, <<3, 2>>, <<2, 1>>, <<3, 1>>, <<7, 2>>, <<4, 1>>,
+               <<9, 2>>, <<5, 1>>, <<11, 2>>, <<6, 1>>, <<8, 1>>>>
+StepPool == <<<<1, 40>>, <<1, 8>>, <<1, 5>>, <<1, 4>>, <<3, 10>>, <<1, 3>>, <<2, 5>>, <<3, 5>>,
+              <<7, 10>>, <<3, 4>>, <<4, 5>>, <<9, 10>>, <<5, 4>>, <<3, 2>>>>
+RhoPool == <<<<21, 20>>, <<6, 5>>, <<5, 4>>, <<7, 5>>, <<7, 4>>, <<5, 2>>, <<3, 1>>, <<4, 1>>,
+             <<5, 1>>, <<8, 1>>, <<10, 1>>>>
+QuickNPool == [i_ \in 1..36 |-> i_ + 13]                                   \* 14..49
+ThoroughNPool == [i_ \in 1..127 |-> i_ + 256]                             \* 257..383
+
+QuickN == [i_ \in 1..12 |-> i_] \o Pick(QuickNPool, SeedN)                      \* 1..12 + one drawn size
+ThoroughN == [i_ \in 1..100 |-> i_] \o <<127, 128, 255, 256>> \o Pick(ThoroughNPool, SeedN)  \* 1..100, 127, 128, 255, 256 + one
+QuickAlpha == <<<<-1, 2>>, <<0, 1>>, <<5, 2>>>> \o Pick(AlphaPool, SeedAlpha)
+ThoroughAlpha == <<<<-1, 2>>, <<0, 1>>, <<1, 3>>, <<1, 2>>, <<1, 1>>, <<5, 2>>>> \o Pick(AlphaPool, SeedAlpha)
+QuickStep == <<<<1, 10>>, <<1, 2>>, <<1, 1>>>> \o Pick(StepPool, SeedStep)
+ThoroughStep == <<<<1, 20>>, <<1, 10>>, <<1, 2>>, <<1, 1>>>> \o Pick(StepPool, SeedStep)
 AllD == <<1, 5, 9>>
-QuickRho == <<<<11, 10>>, <<2, 1>>>>
-ThoroughRho == <<<<11, 10>>, <<3, 2>>, <<2, 1>>>>
-QuickBase == <<"GaussLegendre", "Trapezoidal">>
-ThoroughBase == <<"GaussLegendre", "FejerFirst", "Trapezoidal", "GaussChebyshevLobatto">>
+QuickRho == <<<<11, 10>>, <<2, 1>>>> \o Pick(RhoPool, SeedRho)
+ThoroughRho == <<<<11, 10>>, <<3, 2>>, <<2, 1>>>> \o Pick(RhoPool, SeedRho)
+QuickBase == <<"GaussLegendre", "Trapezoidal", "Simpson">>
+ThoroughBase == <<"GaussLegendre", "FejerFirst", "Trapezoidal", "GaussChebyshevLobatto", "Simpson",
+                  "ClenshawCurtis", "MidPoint", "GaussChebyshev", "RectangleRuleSineEndPoints">>
 =============================================================================
